@@ -51,6 +51,18 @@ Lateral == {
   [tag |-> <<"lateral", "left_filter">>, q |-> LatJoin("left", A, Filter(Bt, CmpE("lt", Col(2), O(2))), True, 2, 2)],
   [tag |-> <<"lateral", "cross_agg">>, q |-> LatJoin("cross", A, AggQ(Filter(Bt, Eq(Col(1), O(1))), <<>>, <<CountStar, AggF("sum", Col(2))>>), True, 2, 2)] }
 
+(* correlated subqueries whose inner query is an aggregate WITH ITS OWN GROUP BY: decorrelation appends the outer columns
+   to the grouping sets, after the existing group expressions *)
+GroupedInner == {
+  [tag |-> <<"exists", "grouped_inner">>,
+   q |-> Filter(A, ExistsE(Filter(AggQ(Filter(Bt, Eq(Col(1), Outer(1, 1))), <<Col(2)>>, <<CountStar>>), CmpE("ge", Col(2), LitI(1)))))],
+  [tag |-> <<"in", "grouped_inner">>,
+   q |-> Filter(A, InSubE(Col(2), Project(AggQ(Filter(Bt, Eq(Col(1), Outer(1, 1))), <<Col(2)>>, <<CountStar>>), <<Col(2)>>)))],
+  [tag |-> <<"scalar", "grouped_inner_max">>,
+   q |-> Project(A, <<Col(1), ScalarE(AggQ(AggQ(Filter(Bt, Eq(Col(1), Outer(1, 1))), <<Col(2)>>, <<CountStar>>), <<>>, <<AggF("max", Col(2))>>))>>)],
+  [tag |-> <<"lateral", "grouped_inner">>,
+   q |-> LatJoin("inner", A, AggQ(Filter(Bt, Eq(Col(1), Outer(1, 1))), <<Col(2)>>, <<CountStar>>), True, 2, 2)] }
+
 (* CTEs: referenced 0..3 times, against the inlined form *)
 Body == Filter(A, NotNullE(Col(1)))
 X == Scan("x")
@@ -66,6 +78,14 @@ Ctes == {
   [tag |-> <<"cte", "ref_in_subquery">>, q |-> WithQ("x", Body, Filter(Bt, InSubE(Col(1), Project(X, <<Col(1)>>))))],
   [tag |-> <<"cte", "ref_filters_differ">>,
    q |-> WithQ("x", A, UnionQ(TRUE, Filter(X, Eq(Col(1), LitI(1))), Filter(X, IsNullE(Col(2)))))],
+  (* only ONE reference is filtered: the other reference must still see every row of the CTE *)
+  [tag |-> <<"cte", "ref_one_filtered">>,
+   q |-> WithQ("x", A, UnionQ(TRUE, Filter(X, CmpE("gt", Col(2), LitI(0))), X))],
+  [tag |-> <<"cte", "ref_one_filtered_join">>,
+   q |-> WithQ("x", A, Join("inner", Filter(X, Eq(Col(1), LitI(1))), X, Eq(Col(2), Col(4)), 2, 2))],
+  [tag |-> <<"cte", "ref_one_filtered_sub">>,
+   q |-> WithQ("x", A, Project(Bt, <<Col(1), ScalarE(AggQ(Filter(X, AndE(Eq(Col(1), Outer(1, 1)), CmpE("gt", Col(2), LitI(0)))), <<>>, <<AggF("sum", Col(2))>>)),
+                                   ScalarE(AggQ(Filter(X, Eq(Col(1), Outer(1, 1))), <<>>, <<AggF("sum", Col(2))>>))>>))],
   [tag |-> <<"cte", "agg_body_twice">>,
    q |-> WithQ("x", AggQ(A, <<Col(1)>>, <<CountStar>>), Join("inner", X, X, Eq(Col(2), Col(4)), 2, 2))],
   [tag |-> <<"cte", "nested_cte">>, q |-> WithQ("x", Body, WithQ("y", DistinctQ(X), UnionQ(TRUE, Scan("y"), X)))],
@@ -73,7 +93,7 @@ Ctes == {
   [tag |-> <<"cte", "limit_body_self_except">>,
    q |-> WithQ("x", LimitQ(A, 1, 0), Join("anti", X, X, AndE(NotDistinctE(Col(1), Col(3)), NotDistinctE(Col(2), Col(4))), 2, 2))] }
 
-Queries == Scalar \cup Exists \cup InQ \cup Quant \cup Nested \cup Lateral \cup Ctes
+Queries == Scalar \cup Exists \cup InQ \cup Quant \cup Nested \cup Lateral \cup Ctes \cup GroupedInner
 
 VARIABLE c
 Init == c \in Queries
